@@ -177,7 +177,7 @@ package obfs4
 //@       && sub(seq(resp), pos + 16, pos + 32) == sub(HASH(1, hs.mac.hkey, cat(sub(seq(resp), 0, pos + 16), seq(hs.epochHour))), 0, 16)
 //@       && exists(h, (now0 / 1000000000) / 3600 - 1, (now / 1000000000) / 3600 + 2, seq(hs.epochHour) == fmtInt(h, 10))
 //@   ensures [C04:state] shsInv(hs) && hsApart(hs, filter)
-//@   ensures [C06:first_32_bytes_are_X] rep0 == nil && hs.clientRepresentative != nil ==> seq(hs.clientRepresentative) == sub(seq(resp), 0, 32) && fresh(hs.clientRepresentative) && fresh(hs.clientMark)
+//@   ensures [C06:first_32_bytes_are_X] rep0 == nil && hs.clientRepresentative != nil && err != ErrReplayedHandshake ==> seq(hs.clientRepresentative) == sub(seq(resp), 0, 32) && fresh(hs.clientRepresentative) && fresh(hs.clientMark)
 //@   ensures rep0 != nil ==> unchanged(hs.clientMark) && hs.clientRepresentative == rep0
 //@   ensures fresh(hs.epochHour) || unchanged(hs.epochHour)
 //@   ensures fresh(hs.clientMark) || unchanged(hs.clientMark)
